@@ -57,6 +57,12 @@ func generate(w *mon.W) {
 		}
 		g := &gen.PipeGen{Rng: rng, DetSort: 80, MaxDepth: 2}
 		p, _ := g.Pipe("T", seq, 2)
+		switch i % 9 {
+		case 0:
+			p = twinJoins(rng)
+		case 1:
+			p = summarizeThenNestedJoin(rng)
+		}
 		c := &pipecheck.Case{Pipe: p}
 		for k := 0; k < nInst; k++ {
 			c.Instances = append(c.Instances, rng.Int63())
@@ -64,4 +70,68 @@ func generate(w *mon.W) {
 		key := Print(&Program{Stmts: []*Stmt{{Pipe: p}}}, Layout{Mode: 0}).Src
 		w.Do(key, func(r *mon.R) { pipecheck.Check(c, r, "C03") })
 	}
+}
+
+// twinJoins: two joins whose right-hand pipelines are identical except for one
+// function name, literal or comparison operator (same aliases, same shape).
+func twinJoins(rng interface{ Intn(int) int }) *Pipe {
+	variants := [][2]*E{
+		{Call("tolower", Name("us")), Call("toupper", Name("us"))},
+		{Call("isnull", Name("ub")), Call("isnotnull", Name("ub"))},
+		{Bin("+", Name("ub"), Num("1")), Bin("+", Name("ub"), Num("2"))},
+		{Bin("<", Name("ub"), Num("1")), Bin(">=", Name("ub"), Num("1"))},
+		{Call("fi", Name("ub")), Call("fi2", Name("ub"))},
+		{Call("strcat", Name("us"), StrLit("a", false)), Call("strcat", Name("us"), StrLit("b", false))},
+		{Call("not", Call("isnull", Name("us"))), Call("isnull", Call("isnull", Name("us")))},
+	}
+	v := variants[rng.Intn(len(variants))]
+	if rng.Intn(2) == 0 {
+		v[0], v[1] = v[1], v[0]
+	}
+	right := func(x *E) *Pipe {
+		return &Pipe{Table: Ident{Name: "U"}, Ops: []*Op{{K: "project", Cols: []Col{{Name: &Ident{Name: "uid"}}, {Name: &Ident{Name: "r"}, X: x}}}}}
+	}
+	kinds := []string{"", "inner", "leftouter", "innerunique"}
+	cond := func() []*E { return []*E{Bin("==", Name("$left", "id"), Name("$right", "uid"))} }
+	j1 := &Op{K: "join", Kind: kinds[rng.Intn(4)], Right: right(v[0]), Conds: cond()}
+	p := &Pipe{Table: Ident{Name: "T"}, Ops: []*Op{{K: "project", Cols: []Col{{Name: &Ident{Name: "id"}}, {Name: &Ident{Name: "ia"}}}}}}
+	if rng.Intn(2) == 0 {
+		// the second join nested at the end of the first one's right-hand side
+		inner := &Op{K: "join", Kind: "inner", Right: right(v[1]), Conds: []*E{Name("true")}}
+		j1.Right.Ops = append(j1.Right.Ops, inner)
+		j1.Conds = []*E{Name("true")}
+		p.Ops = append(p.Ops, j1)
+		return p
+	}
+	j2 := &Op{K: "join", Kind: kinds[rng.Intn(4)], Right: right(v[1]), Conds: cond()}
+	p.Ops = append(p.Ops, j1, j2)
+	if rng.Intn(2) == 0 {
+		p.Ops = append(p.Ops, &Op{K: "count"})
+	}
+	return p
+}
+
+// summarizeThenNestedJoin: the prefix ends in summarize or count right before a
+// join whose right-hand side starts with a join of its own (default kind).
+func summarizeThenNestedJoin(rng interface{ Intn(int) int }) *Pipe {
+	p := &Pipe{Table: Ident{Name: "T"}}
+	if rng.Intn(2) == 0 {
+		p.Ops = append(p.Ops, &Op{K: "summarize", Cols: []Col{{Name: &Ident{Name: "n"}, X: Call("count")}}, HasBy: true, By: []Col{{X: Name("k")}}})
+	} else {
+		p.Ops = append(p.Ops, &Op{K: "project", Cols: []Col{{Name: &Ident{Name: "k"}}}}, &Op{K: "summarize", HasBy: true, By: []Col{{X: Name("k")}}})
+	}
+	kinds := []string{"", "innerunique", "", "inner", "leftouter"}
+	inner := &Op{K: "join", Kind: kinds[rng.Intn(5)], Right: &Pipe{Table: Ident{Name: "V"}, Ops: []*Op{{K: "project", Cols: []Col{{Name: &Ident{Name: "vid"}}, {Name: &Ident{Name: "vk"}, X: Name("k")}}}}},
+		Conds: []*E{Bin("==", Name("$left", "j"), Name("$right", "vk"))}}
+	rightPipe := &Pipe{Table: Ident{Name: "U"}, Ops: []*Op{inner}}
+	if rng.Intn(3) == 0 {
+		// duplicate rows on the nested join's left side come from a projection that drops the unique column
+		rightPipe = &Pipe{Table: Ident{Name: "U"}, Ops: []*Op{{K: "project", Cols: []Col{{Name: &Ident{Name: "j"}}, {Name: &Ident{Name: "k"}}}}, inner}}
+	}
+	outer := &Op{K: "join", Kind: kinds[rng.Intn(5)], Right: rightPipe, Conds: []*E{Bin("==", Name("$left", "k"), Name("$right", "vk"))}}
+	p.Ops = append(p.Ops, outer)
+	if rng.Intn(2) == 0 {
+		p.Ops = append(p.Ops, &Op{K: "count"})
+	}
+	return p
 }
